@@ -4,6 +4,9 @@ import PqlModel.Props.C16IO
 import PqlModel.Props.C16Semantics
 import PqlModel.Props.C05NoPlaceholderCli
 import PqlModel.Props.C16RunIR
+import PqlModel.Props.C16IOIRTrees
+import PqlModel.Props.C16IOIR
+import PqlModel.Props.C16IOIRMake
 #print axioms Pql.C16.C16_statement_sim
 #print axioms Pql.C16.C16_statements_sim
 #print axioms Pql.C16.C16_output_monotone
@@ -70,3 +73,23 @@ import PqlModel.Props.C16RunIR
 #print axioms Pql.CliIR.empty_slice_panics
 #print axioms Pql.CliIR.unguarded_index_panics
 #print axioms Pql.CliIR.no_return_stuck
+#print axioms Pql.CliIOIR.read_ir
+#print axioms Pql.CliIOIR.close_ir
+#print axioms Pql.CliIOIR.makeInput_ir
+#print axioms Pql.CliIOIR.makeOutput_ir
+#print axioms Pql.CliIOIR.isTerminal_ir
+#print axioms Pql.CliIOIR.read_run
+#print axioms Pql.CliIOIR.mrRead_refines
+#print axioms Pql.CliIOIR.C16_Read_ir_heap
+#print axioms Pql.CliIOIR.C16_Read_ir_fuel_tight
+#print axioms Pql.CliIOIR.C16_Read_ir_nil_panics
+#print axioms Pql.CliIOIR.close_run
+#print axioms Pql.CliIOIR.mrClose_spec
+#print axioms Pql.CliIOIR.C16_Close_ir
+#print axioms Pql.CliIOIR.C16_Close_ir_nil_panics
+#print axioms Pql.CliIOIR.makeInput_run
+#print axioms Pql.CliIOIR.miLoop_model
+#print axioms Pql.CliIOIR.den_eq_denote
+#print axioms Pql.CliIOIR.C16_makeInput_ir
+#print axioms Pql.CliIOIR.C16_makeOutput_ir
+#print axioms Pql.CliIOIR.C16_isTerminal_ir
